@@ -20,6 +20,11 @@ CHECKS = {
    text="All ordered pairs of distinct applicable branches of <=2 (thorough 3) zone blocks over a 6-symbol block-content alphabet (conflicting spends of a pre-fork output, spend of another output, spend of a branch-created / about-to-be-trimmed output, Quai transfer, empty) from a common 14-block prefix containing region and prime blocks, a conversion and a trimmable output whose trim height falls inside the branches. The reorganising node must equal, after every switch (A->B->A->B), the canonical projection (flat UTXO+lockup ledger, address index as sets, number->hash map, head pointers, stored multiset/size) of a node that only saw the winner, and its head must satisfy the commitment oracle.",
    note="Trusts: scaled trim/lock depths; zone-order branch blocks only (region/prime reorganisations are not driven); lockup-contract activity on branches is exercised by C13, not here. Address index compared as sets of outpoints per address.",
    design="2/C10"),
+ "C06": dict(
+   technique="exhaustive enumeration of block-content words on real nodes; per block repeated/cold/cross-backend execution compared; commitment oracle by full DB scan after every accepted block",
+   text="For every word of block contents up to length 2 (thorough 3) after a 14-block prefix (conversion, inbound ETXs, Qi outputs, trimmable output) every block is processed by the real StateProcessor three times warm and once on a cold replica started from a copy of the databases before it is appended (all outputs equal), after acceptance the MuHash is recomputed from a scan of the ut/cl prefixes and compared with header root, stored multiset and stored size and the state is reopened at the header roots, and the whole history is replayed on leveldb- and pebble-backed zone nodes (same verdicts and canonical projection).",
+   note="Trusts: scaled constants. Map-iteration-order and scheduler independence are only sampled by the repeated runs here (the trimming goroutines are explored separately when the scheduler part is built). Known finding: spend-at-trim-height double removal (known_findings.json).",
+   design="2/C06"),
 }
 
 NOT_YET = "check not built yet in this session (planned; see DESIGN.md section 2)"
